@@ -281,7 +281,17 @@ where
         }))
         .await?;
         let _ = st.next().await;
-        st.send(selium_protocol::Frame::Message(selium_protocol::MessagePayload { headers: None, message: payload })).await?;
+        // ... and, on every other such case, first a batch frame whose content is not a batch
+        let mut frames = vec![selium_protocol::Frame::Message(selium_protocol::MessagePayload { headers: None, message: payload })];
+        if run % 2 == 0 {
+            let junk = match compression(comp) {
+                Some((c, _)) => c.compress(Bytes::from(vec![0xffu8; 16])).map_err(|e| anyhow!("compress: {e}"))?,
+                None => Bytes::from(vec![0xffu8; 16]),
+            };
+            frames.insert(0, selium_protocol::Frame::BatchMessage(junk));
+        }
+        for f in frames {
+        st.send(f).await?;
         log.emit("poison", json!({"codec": tname}));
         let mut reported = false;
         let deadline = tokio::time::Instant::now() + Duration::from_secs(5);
@@ -303,6 +313,7 @@ where
         }
         if !reported {
             log.emit("poison_unreported", json!({}));
+        }
         }
         let _ = st.finish().await;
     }
